@@ -25,6 +25,20 @@ static void op_range(FILE *out, const char *id, char **a, int n) {
         }
         free(copy);
     }
+    /* optional 4th argument: the marks the chunks had at an EARLIER request on this context ("0,1,-1,..."): that request is made
+     * (and dropped), failed chunks are reset as a downloader does before a retry, and the marks are set to those of the table.
+     * A request is a function of the current marks only. */
+    if(n > 3 && strcmp(a[3], "-") != 0) {
+        char *copy = strdup(a[3]); char *save = NULL; zckChunk *c = zck->index.first;
+        for(char *t = strtok_r(copy, ",", &save); t && c; t = strtok_r(NULL, ",", &save), c = c->next) c->valid = atoi(t);
+        free(copy);
+        zckRange *r0 = zck_get_missing_range(zck, limit);
+        if(r0) zck_range_free(&r0);
+        zck_reset_failed_chunks(zck);
+        copy = strdup(a[1]); save = NULL; c = zck->index.first;
+        for(char *t = strtok_r(copy, ",", &save); t && c; t = strtok_r(NULL, ",", &save), c = c->next) c->valid = atoi(strchr(t, ':') + 1);
+        free(copy);
+    }
     zckRange *r = zck_get_missing_range(zck, limit);
     if(!r) { fprintf(out, "%s ERR\n", id); zck_free(&zck); return; }
     char *txt = zck_get_range_char(zck, r);
